@@ -511,3 +511,45 @@ def validate(records, progs, timeout: int = 3000):
     finally:
         import shutil
         shutil.rmtree(work, ignore_errors=True)
+
+
+def tamper_selftest(runs, progs):
+    """Vacuity guard: two corrupted copies of a recorded run must be rejected by spec/StmtTrace.tla -- one whose active context is
+    not restored after a `with` block, one whose first bound number is replaced by a boolean.  Returns the list of clause names TLC
+    reported for them (the caller insists on the two expected ones)."""
+    import copy
+    picked = None
+    for r in runs:
+        p = progs[r['pid'] - 1]
+        evs = r['ev']
+        for j in range(1, len(evs)):
+            a = p['lines'].get(evs[j - 1]['l'])
+            if a and a['k'] == 'with' and str(a['b0']) == evs[j]['l'] and '__ctx__' in evs[j]['v'] and not r['exc']:
+                later = [m for m in range(j + 1, len(evs)) if '__ctx__' in evs[m]['v']]
+                if later:
+                    picked = (r, j, later[0])
+                    break
+        if picked:
+            break
+    if picked is None:
+        return None
+    r, j, m = picked
+    t1 = copy.deepcopy({k: r[k] for k in ('pid', 'ev', 'ret', 'exc', 'mut', 'cx0')})
+    del t1['ev'][m]['v']['__ctx__']            # the enclosing context never comes back
+    t1['tid'] = 0
+    t2 = copy.deepcopy({k: r[k] for k in ('pid', 'ev', 'ret', 'exc', 'mut', 'cx0')})
+    t2['tid'] = 1
+    done = False
+    p = progs[r['pid'] - 1]
+    for e_prev, e in zip(t2['ev'], t2['ev'][1:]):
+        rec = p['lines'].get(e_prev['l'])
+        if rec and rec['k'] == 'assign':
+            for d in rec['defs']:
+                if d['n'] in e['v'] and d['ty'].get('t') == 'real':
+                    e['v'][d['n']] = {'k': 'bool', 'b': True}
+                    done = True
+                    break
+        if done:
+            break
+    out = validate([t1] + ([t2] if done else []), progs)
+    return sorted({m_[1] for m_ in out.mismatches}), done
